@@ -5,4 +5,5 @@ import SwcVerif.Model.AlgoRunSubtree
 import SwcVerif.Model.AlgoRunPopulation
 import SwcVerif.Model.AlgoRunNormalizer
 import SwcVerif.Model.AlgoRunBranches
+import SwcVerif.Model.AlgoRunRedirect
 /-! all runners of generated definitions (imported by the root module only; the driver imports them one by one) -/
